@@ -6,7 +6,9 @@ ops (byte strings are written as lower-case hex pairs, `-` = empty):
   `tables`        four lines: isspace / isxdigit (256 × 0|1), nibble and hexchar (256 comma separated values)
   `dump <bytes>`  `dump ret=<n> <text>` and the parse line of that text
   `parse <text>`  `parse v@off … -1 -1 -1`: calls until -1 (at most len+2), then two more; `off` = `*p - text`
-  `reparse <text>` the same in the calling style of tests/hextest.c (`hex_get_byte(p, &p)`) -/
+  `reparse <text>` the same in the calling style of tests/hextest.c (`hex_get_byte(p, &p)`)
+  `bdump`, `bparse`, `breparse`: the harness places the data in its persistent block instead of a fresh one; the model
+  has no state and no addresses, so these are the same as the plain ops -/
 namespace Librfn.Driver.Hex
 open Librfn.Driver Librfn.Model.Hex
 
@@ -55,6 +57,11 @@ def allBytes : List UInt8 := (List.range 256).map UInt8.ofNat
 def bits (f : UInt8 → Bool) : String := String.ofList (allBytes.map fun c => if f c then '1' else '0')
 
 def stepLine (s : Unit) (w : List String) : Unit × List String :=
+  let w := match w with
+    | ["bdump", b] => ["dump", b]
+    | ["bparse", t] => ["parse", t]
+    | ["breparse", t] => ["reparse", t]
+    | w => w
   match w with
   | ["--"] => (s, ["--"])
   | ["reset"] => (s, ["ok"])
